@@ -83,6 +83,10 @@ def main(out):
         # same-name root with different key: chain CA signed by the evil key
         e2_ca1 = mk("VCA1", "ca1", "VRoot", "evil", ca_exts(0))
         write(out, prefix + "_fakeroot", chain=chain(good, [e2_ca1]), sign=skey, enc="enc" if with_enc else None)
+        # ... and the same with the look-alike root itself sent at the end of the chain (a verifier that trusts a root by its name alone accepts this)
+        write(out, prefix + "_fakerootsent", chain=chain(good, [e2_ca1, evil]), sign=skey, enc="enc" if with_enc else None)
+        # leaf issued directly under the look-alike root, which is sent along
+        write(out, prefix + "_fakeroot1", chain=chain(mk(subj, skey, "VRoot", "evil", LEAF_SIGN), [evil], mk(subj, "enc", "VRoot", "evil", LEAF_ENC)), sign=skey, enc="enc" if with_enc else None)
         write(out, prefix + "_expired", chain=chain(mk(subj, skey, iname, ikey, LEAF_SIGN, nb=NOW - 100 * DAY, na=NOW - DAY), cas),
               sign=skey, enc="enc" if with_enc else None)
         write(out, prefix + "_notyet", chain=chain(mk(subj, skey, iname, ikey, LEAF_SIGN, nb=NOW + DAY, na=NOW + 100 * DAY), cas),
